@@ -25,6 +25,7 @@ inductive Field where
 /-- the mutators and entry points. -/
 inductive Mut where
   | set | setMeta | addPretasks | addPretasksFrom | addDependencies | addDependenciesCfg | setattr | addtag | tag
+  | other (name : String)          -- any other method of `ConfigInformation` / `TypeConfig` that has effects
   deriving Repr, DecidableEq
 
 /-- one effect, in source order. -/
